@@ -90,6 +90,8 @@ def same_keys_configs(rng, k):
     which are text / numbers): instances that are given different configurations must not take one for another"""
     bits = sorted(rng.sample(range(2, 128), 7))
     out = []
+    # listed in the same (ascending) order by all of them half of the time: then even the sequence of keys is the same
+    same_order = rng.random() < 0.5
     for _ in range(k):
         order = list(bits)
         rng.shuffle(order)
@@ -105,7 +107,7 @@ def same_keys_configs(rng, k):
                 c = {'field_type': 'FIXED', 'field_length': rng.choice([3, 8, 12])}
             c['field_name'] = 'f%d' % b
             cfg[str(b)] = c
-        out.append(cfg)
+        out.append({str(b): cfg[str(b)] for b in bits} if same_order else cfg)
     return out
 
 
